@@ -42,23 +42,33 @@ SHAPES = [(1,), (3,), (0,), (2, 2), (2, 0, 3), (4, 2, 3)]
 BIG = [0, 1, 3_000_000, 40_000_000]
 
 
+# small integer dtypes with cells near the top of their range: a sum of two cells leaves the dtype
+SMALL = {"i8": (np.int8, [0, 1, 100, 127]), "u8": (np.uint8, [0, 1, 200, 255]), "i16": (np.int16, [0, 1, 30000, 32767]),
+         "u16": (np.uint16, [0, 1, 40000, 65535]), "i32": (np.int32, [0, 1, 2**30, 2**31 - 1]),
+         "u32": (np.uint32, [0, 1, 2**31, 2**32 - 1])}
+
+
 def _entries(b, sc):
+    if sc in SMALL:
+        return SMALL[sc][1]
     return b["big_entries"] if sc in ("big", "big32") else b["entries"]
 
 
 def _scale(sc):
-    return 1 if sc in ("big", "big32") else sc
+    return 1 if sc in ("big", "big32") or sc in SMALL else sc
 
 
 def _dtype(sc):
+    if sc in SMALL:
+        return SMALL[sc][0]
     return np.int32 if sc == "big32" else (np.int64 if sc in (1, "big") else np.float64)
 
 
 def bounds(tier):
     if tier == "quick":
-        return {"entries": [0, 1, 2, 5], "scales": [1, 0.5, 1e-10, "big"], "alphas": ALPHAS,
+        return {"entries": [0, 1, 2, 5], "scales": [1, 0.5, 1e-10, "big", "i8", "u8", "i32"], "alphas": ALPHAS,
                 "leading_shapes": [list(s) for s in SHAPES], "big_entries": BIG}
-    return {"entries": [0, 1, 2, 3, 5, 10], "scales": [1, 0.5, 1e-3, 1e6, 1e-10, 1e-12, "big", "big32"], "alphas": ALPHAS,
+    return {"entries": [0, 1, 2, 3, 5, 10], "scales": [1, 0.5, 1e-3, 1e6, 1e-10, 1e-12, "big", "big32", "i8", "u8", "i16", "u16", "i32", "u32"], "alphas": ALPHAS,
             "leading_shapes": [list(s) for s in SHAPES], "big_entries": BIG}
 
 
